@@ -198,21 +198,28 @@ CloseLane(l) ==
   /\ UNCHANGED <<kind, nl, qsize, slot, started, up, stopst, queue, cs, cw, rj, info, lane, ctxd,
                  late, rv, acc, sto, nst>>
 
-StopR ==
+StopR ==    \* Stop returns: whatever it had not closed yet is closed now
   /\ stopst = "ing"
-  /\ \A l \in LaneIds : Used(l) => qclosed[l]
+  /\ qclosed' = [l \in LaneIds |-> qclosed[l] \/ Used(l)]
   /\ stopst' = "done"
-  /\ UNCHANGED <<kind, nl, qsize, slot, started, up, qclosed, queue, cs, cw, rj, info, lane, ctxd,
+  /\ UNCHANGED <<kind, nl, qsize, slot, started, up, queue, cs, cw, rj, info, lane, ctxd,
                  late, rv, acc, sto, nst>>
 
-Exit(l) ==
+(* a consumer leaves: its queue is closed and it is not inside a call; line, *)
+(* mline and runq drain first (PopAnyway), pchan may leave a backlog behind *)
+CanExit(l) ==
   /\ l \in LaneIds /\ Used(l) /\ up[l] /\ ~Busy(l) /\ qclosed[l]
   /\ queue[l] = <<>> \/ kind = "pchan" \/ ~FixPopAnyway
-  /\ up' = [up EXCEPT ![l] = FALSE]
-  /\ cs' = [c \in Calls |-> IF cs[c] = "queued" /\ lane[c] = l THEN "dropped" ELSE cs[c]]
-  /\ queue' = [queue EXCEPT ![l] = <<>>]
+
+ExitSet(X) ==   \* the lanes in X leave (one step per lane in the exhaustive runs)
+  /\ \A l \in X : CanExit(l)
+  /\ up' = [l \in LaneIds |-> up[l] /\ l \notin X]
+  /\ cs' = [c \in Calls |-> IF cs[c] = "queued" /\ lane[c] \in X THEN "dropped" ELSE cs[c]]
+  /\ queue' = [l \in LaneIds |-> IF l \in X THEN <<>> ELSE queue[l]]
   /\ UNCHANGED <<kind, nl, qsize, slot, started, qclosed, stopst, cw, rj, info, lane, ctxd, late, rv,
                  acc, sto, nst>>
+
+Exit(l) == ExitSet({l})
 
 (* ---- action records, shared with the Go harness ------------------------ *)
 Do(a) ==
